@@ -592,6 +592,7 @@ class FelicaLite(tt3.Type3Tag):
 
         log.debug("authenticate with key {}".format(hexlify(key).decode()))
         self._authenticated = False
+        self._sk = self._iv = None  # no session key until authenticated
         self.read_from_ndef_service = self.read_without_mac
         self.write_to_ndef_service = self.write_without_mac
 
